@@ -15,6 +15,9 @@ const missedTimestampMaxFilter = 150
 type DataStoreSet struct {
 	peer *Peer
 
+	// dropped is set when the peer removed this set from memory (stale timeout, broken peer), a still running update must not report success then
+	dropped atomic.Bool
+
 	tableCommands      atomic.Pointer[DataStore]
 	tableComments      atomic.Pointer[DataStore]
 	tableContactgroups atomic.Pointer[DataStore]
@@ -213,6 +216,9 @@ func (ds *DataStoreSet) UpdateFull(ctx context.Context, tables []TableName) (err
 		return
 	}
 	peer := ds.peer
+	if ds.dropped.Load() {
+		return fmt.Errorf("peer went offline during the update, data has been removed")
+	}
 	duration := time.Since(time1)
 	peerState := peer.peerState.Get()
 	switch peerState {
@@ -297,6 +303,11 @@ func (ds *DataStoreSet) UpdateDelta(ctx context.Context, from, until float64) (e
 	peer := ds.peer
 	duration := time.Since(time1)
 	logWith(peer).Debugf("delta update complete in: %s", duration.Truncate(time.Millisecond).String())
+
+	if ds.dropped.Load() {
+		// a failed connection attempt after the stale timeout removed this data set meanwhile, do not report the peer as up without data
+		return fmt.Errorf("peer went offline during the update, data has been removed")
+	}
 
 	peer.resetErrors()
 	peer.lastUpdate.Set(until)
